@@ -118,7 +118,10 @@ Definition stage1_faithful (p : plan) (s l : N) (w : world) (base mid : list blo
                /\ receipts_elem_ok (s + N.of_nat i) e (nth_error base i) (nth_error mid i)
   | ALogs =>
       exists lb ls, w_logs w = RBody lb
-        /\ (2 <= lb_len lb)%nat /\ lb_herr lb = false /\ lb_lerr lb = false /\ lb_hpresent lb = true
+        /\ (2 <= lb_len lb)%nat /\ lb_herr lb = false /\ lb_lerr lb = false
+        /\ (exists h, lb_hdr lb = Some h
+              (* the header that came with the logs is the one known for the last block *)
+              /\ forall b, nth_error base (N.to_nat l - 1) = Some b -> b_hash b <> [] -> b_hash b = h)
         /\ lb_logs lb = Some (map Some ls)
         /\ (forall x, In x ls -> s <= lr_bnum x < s + l)
         /\ forall j b, nth_error base j = Some b ->
@@ -174,7 +177,12 @@ Inductive corrupted (p : plan) (s l : N) (w : world) : Prop :=
 | CLgFail : attach_kind p = ALogs -> w_logs w = RFail -> corrupted p s l w
 | CLgShort : forall lb, attach_kind p = ALogs -> w_logs w = RBody lb -> (lb_len lb < 2)%nat -> corrupted p s l w
 | CLgErr : forall lb, attach_kind p = ALogs -> w_logs w = RBody lb -> lb_herr lb = true \/ lb_lerr lb = true -> corrupted p s l w
-| CLgNoHeader : forall lb, attach_kind p = ALogs -> w_logs w = RBody lb -> lb_hpresent lb = false -> corrupted p s l w
+| CLgNoHeader : forall lb, attach_kind p = ALogs -> w_logs w = RBody lb -> lb_hdr lb = None -> corrupted p s l w
+(* the header fetched in the batch of eth_getLogs names another hash than the header fetched before
+   (the logs come from another chain; with an empty log list nothing else would show it) *)
+| CLgHeaderHash : forall bes be b lb h, attach_kind p = ALogs -> fetches p = true ->
+    block_reply p w = RBody bes -> (0 < N.to_nat l)%nat -> nth_error bes (N.to_nat l - 1) = Some be -> be_res be = Some b ->
+    w_logs w = RBody lb -> lb_hdr lb = Some h -> h <> b_hash b -> corrupted p s l w
 | CLgNull : forall lb, attach_kind p = ALogs -> w_logs w = RBody lb -> lb_logs lb = None -> corrupted p s l w
 | CLgNullLog : forall lb lo, attach_kind p = ALogs -> w_logs w = RBody lb -> lb_logs lb = Some lo -> In None lo -> corrupted p s l w
 | CLgRange : forall lb lo x, attach_kind p = ALogs -> w_logs w = RBody lb -> lb_logs lb = Some lo -> In (Some x) lo ->
